@@ -571,6 +571,17 @@ impl<'a> Machine<'a> {
                 if self.bare != before_bare {
                     return self.v("quotient:failed-quotient-changed-the-diagram", i, op, format!("(bare hypergraph) before: {:?}; after the failed call: {:?}", before_bare, self.bare));
                 }
+                // the consuming form converts "by quotienting": with a fibre holding two labels there
+                // is no quotient to return, so it must not come back with a diagram (in which the
+                // recorded unifications would have been dropped silently)
+                let conv = before.clone();
+                let came_back = self.ex.lib_try(crate::runner::DEFAULT_BUDGET, || {
+                    let st = conv.to_strict();
+                    (st.h.w.0.len(), st.h.x.0.len())
+                });
+                if let Ok((nn, ne)) = came_back {
+                    return self.v("quotient:to_strict-returned-despite-label-conflict", i, op, format!("to_strict returned a strict diagram with {} nodes and {} hyperedges although the pending unifications of {:?} put two labels into one class", nn, ne, before));
+                }
                 self.ex.probe("quotient_failed");
                 self.pending_failure = true;
             }
@@ -1066,7 +1077,7 @@ impl Check for C09 {
         ]
     }
     fn rule() -> &'static str {
-        "Each run is one generated operation history (2/3 of them <= 10 steps, the rest up to 30/40) on a real lax::OpenHypergraph and, in lock step, a bare lax::Hypergraph, over a label alphabet of 1-3 node labels: new node/edge/operation, add source/target, unify (2/3 same-label partner, self pairs, repeats, chains; 1/3 arbitrary partner = possible conflict), interface assignment, deletions, relabelling, quotient (weight 6 of 29), restart through the simulated disk, fork. After a quotient that the model predicts to fail, 2/3 of the histories continue with a repair (relabel all / relabel the offender / delete the offender) and quotient again. Oracle after every step: all public fields equal the list model; on Ok(q): q total, surjective, fibres exactly the union-find classes of the pending pairs (partition equality), diagram = model mapped through q (numbering adopted, never predicted), pending list empty, second quotient is the identity and changes nothing; Err iff a class holds two labels, and then the diagram equals the pre-call clone field for field. Non-trivial iff the history has a mutating step; distinct = distinct history fingerprints; states = distinct model-state hashes observed after steps."
+        "Each run is one generated operation history (2/3 of them <= 10 steps, the rest up to 30/40) on a real lax::OpenHypergraph and, in lock step, a bare lax::Hypergraph, over a label alphabet of 1-3 node labels: new node/edge/operation, add source/target, unify (2/3 same-label partner, self pairs, repeats, chains; 1/3 arbitrary partner = possible conflict), interface assignment, deletions, relabelling, quotient (weight 6 of 29), restart through the simulated disk, fork. After a quotient that the model predicts to fail, 2/3 of the histories continue with a repair (relabel all / relabel the offender / delete the offender) and quotient again. Oracle after every step: all public fields equal the list model; on Ok(q): q total, surjective, fibres exactly the union-find classes of the pending pairs (partition equality), diagram = model mapped through q (numbering adopted, never predicted), pending list empty, second quotient is the identity and changes nothing; Err iff a class holds two labels, and then the diagram equals the pre-call clone field for field and the consuming form to_strict does not come back with a diagram. Non-trivial iff the history has a mutating step; distinct = distinct history fingerprints; states = distinct model-state hashes observed after steps."
     }
     fn assumptions() -> Vec<&'static str> {
         vec![
